@@ -5,7 +5,33 @@ ROOT = os.path.dirname(os.path.dirname(os.path.abspath(__file__)))
 CHECKS = {}
 NOT_APPLICABLE = {}
 
+# input families added to the drivers by the later seeding rounds (h-j); appended to the description of what the check covers
+LATER = {
+    "C01": "Progeny / family counters of up to nine digits; index arrays in narrow dtypes over 60 taxa; the low-level mating helpers.",
+    "C03": "Histories include a re-assignment of the taxa group labels through the property, genome-scale positions with 32-bit labels, "
+           "negative group labels and a zero chromosome label.",
+    "C04": "Population sizes at which (1/m)*m is not 1.0, with monomorphic loci; responses in integer dtypes.",
+    "C06": "Problems with a declared objective weight other than 1; signed constraint slacks; decision spaces revised through setters.",
+    "C07": "Protocol objects resized through their setters before select(); non-linear preference transformations.",
+    "C08": "Components whose generator is assigned through the rng property after construction; objects built, copied, saved and "
+           "restored before the seeding.",
+    "C09": "Phase axis edited in place; statistic arrays handed out earlier re-examined after the same statistics were asked of another matrix.",
+    "C10": "Populations of 60,000-150,000 individuals with single-copy alleles; founders in Fortran-ordered and transposed-view layouts.",
+    "C11": "Maps whose chromosome left or was relabelled through the property before the spline was rebuilt; a spline dictionary shared with a second map.",
+    "C12": "Variances read through exported tables, partial tables loaded again, and usefulness criteria held by problems built through "
+           "the factory of each decision encoding.",
+    "C13": "Marker weights in integer / boolean / float32 dtypes; format names in any letter case.",
+    "C14": "Variance components as arrays (one array object shared between components); trials run by a protocol restored from HDF5.",
+    "C15": "Original-scale export with every combination of the optional label columns, read back; truncation in place.",
+    "C16": "Tables with one group column left out on both sides; genetic maps written and read in Morgans; labels with blanks.",
+    "C18": "Cross values held by problems built through the OHV factory of each decision encoding; block values of all three problem families.",
+    "C19": "Objectives / weights on scales 2^57 apart; fronts translated by 2^20.",
+}
+
+
 def check(pid, text, note, technique, design_ref):
+    if pid in LATER:
+        text = text + " " + LATER[pid]
     CHECKS[pid] = dict(text=text, note=note, technique=technique, design_ref=design_ref)
 
 check("C19",
